@@ -8,7 +8,7 @@
     [step_self] = the per-action combination; [react_all] = one [react] per occurrence, in order;
     [step_abs] = the abstract per-argument fold; [enc k] = what a Count flag holds after k occurrences. *)
 From ClapModel Require Import Base.Bytes Base.Machine.
-From ClapModel Require Import Parse.Cmd Parse.Build Parse.Valid Parse.Matcher Parse.Errors Parse.Parser ParseProofs.Actions ParseProofs.ActionsLoop ParseProofs.ActionsTokens ParseProofs.ActionsTop.
+From ClapModel Require Import Parse.Cmd Parse.Build Parse.Valid Parse.Matcher Parse.Errors Parse.Parser ParseProofs.Actions ParseProofs.ActionsLoop ParseProofs.ActionsTokens ParseProofs.ActionsTop ParseProofs.ActionsWide ParseProofs.ActionsWideTop.
 From Coq Require Import ZArith.
 Open Scope N_scope.
 
@@ -371,3 +371,192 @@ Theorem C07_top_get_flag : forall c0 bin toks os m a b,
      get_flag_view m (a_id a) = Some (negb b)).
 Proof. exact parse_top_get_flag. Qed.
 Print Assumptions C07_top_get_flag.
+
+(** ======== round 3: the WIDE class of lines (ParseProofs/ActionsWide.v, ActionsWideTop.v) ========
+    [woccurrences c toks] reads everything [occurrences] reads and, in addition: positional values (the positional
+    counter stepping as [Parser::parse] steps it: one occurrence per maximal run for a positional with a value range,
+    one occurrence PER VALUE for an [Append] positional with [num_args(1)]), the escape [--] (trailing index recorded),
+    options with ANY value range (separate values collected until the range is full / a flag-like token / a value
+    terminator / the end of the line; a value-less occurrence is an occurrence without raw value).  The scanner
+    mirrors the loop's control state (parse state, positional counter, trailing flag, pending buffer) and nothing of
+    the matcher.  Conditions checked by the scanner itself: no [allow_missing_positional], no [last] argument, only
+    the highest positional may be multiple (no counter correction); options do not [require_equals]. *)
+Theorem C07_wide_loop : forall c toks os vaf st,
+  no_hyphen_args c = true -> ids_ok c -> woccurrences c toks = Some os ->
+  fs_skip st = 0 -> mt_pending (mt st) = None ->
+  exists r : res ps,
+    parse_loop c toks (mkL PSValuesDone 1 vaf false) st = (do s <- r; ROk (LDone s)) /\
+    (do s <- r; resolve_pending c s) = (do s <- react_all c os st; resolve_pending c s).
+Proof. exact parse_loop_woccurrences. Qed.
+Print Assumptions C07_wide_loop.
+
+(** the simulation behind it, from ANY control state of the loop: [wrel c w st] = the skip counter is clear and the
+    pending buffer of [st] holds exactly the scanner's pending occurrence *)
+Theorem C07_wide_loop_any_state : forall c, no_hyphen_args c = true -> ids_ok c ->
+  forall toks w os, wscan c w toks = Some os ->
+  forall vaf st, wrel c w st ->
+  exists r : res ps,
+    parse_loop c toks (mkL (w_pst w) (w_pos w) vaf (w_trailing w)) st = (do s <- r; ROk (LDone s)) /\
+    (do s <- r; resolve_pending c s) = (do s <- react_all c os (clear_pending st); resolve_pending c s).
+Proof. exact parse_loop_wscan. Qed.
+Print Assumptions C07_wide_loop_any_state.
+
+Theorem C07_wide_scanned : forall c toks os, woccurrences c toks = Some os ->
+  Forall (fun o => In (o_arg o) (c_args c) /\ o_src o = SCmdLine /\ (a_takes_value (o_arg o) = false -> o_raw o = [])) os.
+Proof. exact woccurrences_scanned. Qed.
+Print Assumptions C07_wide_scanned.
+
+Theorem C07_wide_top_occurrences : forall c0 bin toks os m,
+  let c := build_self (with_bin c0 bin) in
+  wide_class c0 bin toks os ->
+  parse_top c0 (bin :: toks) = OOk m ->
+  exists st1, react_all c os ps_new = ROk st1 /\ ms_sub m = None /\
+    forall a, In a (c_args c) ->
+      match get (a_id a) (mt st1) with
+      | Some e => fm_get (a_id a) (ms_args m) = Some e /\ m_source e = Some SCmdLine
+      | None => forall e, fm_get (a_id a) (ms_args m) = Some e ->
+                  m_source e = Some SEnv \/ m_source e = Some SDefault
+      end.
+Proof. exact wide_top_occurrences. Qed.
+Print Assumptions C07_wide_top_occurrences.
+
+Theorem C07_wide_top_denote : forall c0 bin toks os m a,
+  let c := build_self (with_bin c0 bin) in
+  wide_class c0 bin toks os -> parse_top c0 (bin :: toks) = OOk m -> In a (c_args c) ->
+  match fold_left (step_abs c (a_id a)) os None with
+  | Some g => exists e, fm_get (a_id a) (ms_args m) = Some e /\ m_raw e = g /\ m_source e = Some SCmdLine
+  | None => forall e, fm_get (a_id a) (ms_args m) = Some e -> m_source e = Some SEnv \/ m_source e = Some SDefault
+  end.
+Proof. exact wide_top_denote. Qed.
+Print Assumptions C07_wide_top_denote.
+
+Theorem C07_wide_top_count : forall c0 bin toks os m a,
+  let c := build_self (with_bin c0 bin) in
+  wide_class c0 bin toks os -> parse_top c0 (bin :: toks) = OOk m -> In a (c_args c) ->
+  count_flag a -> override_free c (a_id a) ->
+  let n := count_occ (a_id a) os in
+  ((0 < n)%nat -> exists e, fm_get (a_id a) (ms_args m) = Some e /\
+       m_raw e = [[n_to_dec (N.min (N.of_nat n) 255)]] /\ m_source e = Some SCmdLine) /\
+  (n = 0%nat -> forall e, fm_get (a_id a) (ms_args m) = Some e -> m_source e = Some SEnv \/ m_source e = Some SDefault).
+Proof. exact wide_top_count. Qed.
+Print Assumptions C07_wide_top_count.
+
+(** Append (option or positional): one group per occurrence, in command-line order - value-less occurrences are
+    empty groups, a run of a multi-valued positional is one group, every value of a one-value-per-occurrence
+    positional is its own group *)
+Theorem C07_wide_top_append : forall c0 bin toks os m a,
+  let c := build_self (with_bin c0 bin) in
+  wide_class c0 bin toks os -> parse_top c0 (bin :: toks) = OOk m -> In a (c_args c) ->
+  a_get_action a = AAppend -> (forall b, In b (c_args c) -> overridden c b (a_id a) = false) ->
+  (0 < count_occ (a_id a) os)%nat ->
+  exists e, fm_get (a_id a) (ms_args m) = Some e /\ m_raw e = occ_groups c (a_id a) os /\ m_source e = Some SCmdLine.
+Proof. exact wide_top_append. Qed.
+Print Assumptions C07_wide_top_append.
+
+Theorem C07_wide_top_set_last : forall c0 bin toks os1 o os2 m a,
+  let c := build_self (with_bin c0 bin) in
+  wide_class c0 bin toks (os1 ++ o :: os2) -> parse_top c0 (bin :: toks) = OOk m -> In a (c_args c) ->
+  set_family a = true -> o_arg o = a -> Forall (unrelated c (a_id a)) os2 ->
+  exists e, fm_get (a_id a) (ms_args m) = Some e /\
+    m_raw e = step_self c SCmdLine a (o_vals c o) None /\ m_source e = Some SCmdLine.
+Proof. exact wide_top_set_last. Qed.
+Print Assumptions C07_wide_top_set_last.
+
+Theorem C07_wide_top_set_repeat_conflict : forall c0 bin toks os1 o os2 st vals,
+  let c := build_self (with_bin c0 bin) in
+  wide_class c0 bin toks (os1 ++ o :: os2) -> valid (with_bin c0 bin) = true ->
+  react_all c os1 ps_new = ROk st ->
+  set_family (o_arg o) = true -> fold_left (step_abs c (a_id (o_arg o))) os1 None <> None ->
+  self_override c (o_arg o) = false ->
+  verify_num_args c (o_arg o) (o_raw o) st = ROk tt -> occ_values c (o_arg o) (o_raw o) (o_ti o) = Some vals ->
+  exists e, parse_top c0 (bin :: toks) = OErr e /\ e_kind e = EArgumentConflict /\ e_arg e = a_id (o_arg o).
+Proof. exact wide_top_set_repeat_conflict. Qed.
+Print Assumptions C07_wide_top_set_repeat_conflict.
+
+Theorem C07_wide_top_override : forall c0 bin toks os1 o os2 m a,
+  let c := build_self (with_bin c0 bin) in
+  wide_class c0 bin toks (os1 ++ o :: os2) -> parse_top c0 (bin :: toks) = OOk m -> In a (c_args c) ->
+  beq (a_id (o_arg o)) (a_id a) = false -> overridden c (o_arg o) (a_id a) = true ->
+  Forall (fun o' => beq (a_id (o_arg o')) (a_id a) = false) os2 ->
+  forall e, fm_get (a_id a) (ms_args m) = Some e -> m_source e = Some SEnv \/ m_source e = Some SDefault.
+Proof. exact wide_top_override. Qed.
+Print Assumptions C07_wide_top_override.
+
+Theorem C07_wide_top_default : forall c0 bin toks os m a,
+  let c := build_self (with_bin c0 bin) in
+  wide_class c0 bin toks os -> parse_top c0 (bin :: toks) = OOk m -> In a (c_args c) ->
+  fold_left (step_abs c (a_id a)) os None = None ->
+  a_env a = None -> a_default_ifs a = [] -> a_default a <> [] -> a_delim a = None ->
+  exists e, fm_get (a_id a) (ms_args m) = Some e /\ m_raw e = [a_default a] /\ m_source e = Some SDefault.
+Proof. exact wide_top_default. Qed.
+Print Assumptions C07_wide_top_default.
+
+Theorem C07_wide_top_flag : forall c0 bin toks os m a b,
+  let c := build_self (with_bin c0 bin) in
+  wide_class c0 bin toks os -> parse_top c0 (bin :: toks) = OOk m -> In a (c_args c) ->
+  a_get_action a = flag_action b -> a_takes_value a = false -> a_delim a = None ->
+  a_default_missing a = [flag_value b] -> a_default a = [flag_value (negb b)] ->
+  (forall os1 o os2, os = os1 ++ o :: os2 -> o_arg o = a -> Forall (unrelated c (a_id a)) os2 ->
+     exists e, fm_get (a_id a) (ms_args m) = Some e /\ m_raw e = [[flag_value b]] /\ m_source e = Some SCmdLine) /\
+  (count_occ (a_id a) os = 0%nat -> a_env a = None -> a_default_ifs a = [] ->
+     exists e, fm_get (a_id a) (ms_args m) = Some e /\ m_raw e = [[flag_value (negb b)]] /\ m_source e = Some SDefault).
+Proof. exact wide_top_flag. Qed.
+Print Assumptions C07_wide_top_flag.
+
+Theorem C07_wide_top_get_count : forall c0 bin toks os m a,
+  let c := build_self (with_bin c0 bin) in
+  wide_class c0 bin toks os -> parse_top c0 (bin :: toks) = OOk m -> In a (c_args c) ->
+  count_flag a -> override_free c (a_id a) ->
+  a_default a = [[48]] -> a_env a = None -> a_default_ifs a = [] -> a_delim a = None ->
+  get_count_view m (a_id a) = Some (N.min (N.of_nat (count_occ (a_id a) os)) 255).
+Proof. exact wide_top_get_count. Qed.
+Print Assumptions C07_wide_top_get_count.
+
+Theorem C07_wide_top_get_flag : forall c0 bin toks os m a b,
+  let c := build_self (with_bin c0 bin) in
+  wide_class c0 bin toks os -> parse_top c0 (bin :: toks) = OOk m -> In a (c_args c) ->
+  a_get_action a = flag_action b -> a_takes_value a = false -> a_delim a = None ->
+  a_default_missing a = [flag_value b] -> a_default a = [flag_value (negb b)] ->
+  (forall os1 o os2, os = os1 ++ o :: os2 -> o_arg o = a -> Forall (unrelated c (a_id a)) os2 ->
+     get_flag_view m (a_id a) = Some b) /\
+  (count_occ (a_id a) os = 0%nat -> a_env a = None -> a_default_ifs a = [] ->
+     get_flag_view m (a_id a) = Some (negb b)).
+Proof. exact wide_top_get_flag. Qed.
+Print Assumptions C07_wide_top_get_flag.
+
+(** ---- two closed forms of the wide scanner, for ALL lengths ---- *)
+(** an [Append] positional taking one value per occurrence ([per_value_positional]: not [a_multiple_values], no
+    terminator, not trailing-var-arg, the command needs no counter correction): a line of n plain values is n
+    occurrences, and [parse_top] stores every value as its own group, in order - adjacent values are never merged *)
+Theorem C07_wide_positional_scan : forall c a vals, per_value_positional c 1 a -> value_tokens c vals ->
+  woccurrences c vals = Some (map (pos_occ a) vals).
+Proof. exact woccurrences_per_value. Qed.
+Print Assumptions C07_wide_positional_scan.
+
+Theorem C07_wide_positional_per_value : forall c0 bin vals m a,
+  let c := build_self (with_bin c0 bin) in
+  is_set s_no_binary_name c0 = false -> is_set s_ignore_errors c = false -> no_hyphen_args c = true ->
+  per_value_positional c 1 a -> value_tokens c vals -> vals <> [] ->
+  a_get_action a = AAppend -> a_delim a = None -> (forall b, In b (c_args c) -> overridden c b (a_id a) = false) ->
+  parse_top c0 (bin :: vals) = OOk m ->
+  exists e, fm_get (a_id a) (ms_args m) = Some e /\ m_raw e = map (fun v => [v]) vals /\ m_source e = Some SCmdLine.
+Proof. exact wide_top_positional_per_value. Qed.
+Print Assumptions C07_wide_positional_per_value.
+
+(** an option given n times WITHOUT a value ([bare_token]: the token is [--opt] / [-o] of an option of the class):
+    n occurrences without raw value; for an [Append] option without [default_missing_value] [parse_top] stores n
+    EMPTY groups - [get_occurrences] = one group per occurrence, none dropped, merged or reused *)
+Theorem C07_wide_bare_scan : forall c tok idn a n, bare_token c tok idn a ->
+  woccurrences c (repeat tok n) = Some (repeat (tok_occ idn a []) n).
+Proof. exact woccurrences_bare. Qed.
+Print Assumptions C07_wide_bare_scan.
+
+Theorem C07_wide_bare_append : forall c0 bin tok idn a n m,
+  let c := build_self (with_bin c0 bin) in
+  is_set s_no_binary_name c0 = false -> is_set s_ignore_errors c = false -> no_hyphen_args c = true ->
+  bare_token c tok idn a -> (0 < n)%nat ->
+  a_get_action a = AAppend -> a_default_missing a = [] -> (forall b, In b (c_args c) -> overridden c b (a_id a) = false) ->
+  parse_top c0 (bin :: repeat tok n) = OOk m ->
+  exists e, fm_get (a_id a) (ms_args m) = Some e /\ m_raw e = repeat [] n /\ m_source e = Some SCmdLine.
+Proof. exact wide_top_bare_append. Qed.
+Print Assumptions C07_wide_bare_append.
